@@ -102,8 +102,7 @@ def main():
     run.add_tlc(tlc.run_tlc('MC_Pitch', workers=8, timeout=900))
     run.add_tlc(tlc.run_tlc('MC_Transform', 'MC_Transform.cfg', workers=16, timeout=3000))
     if a.replay_case:
-        case = a.replay_case['case']
-        sess = [sess_transpose(case['seed'], core='core' in (case.get('tags') or []))]
+        sess = docs.replay_sessions(a.replay_case)
     else:
         n = 60 if quick else 900
         sess = docs.build_sessions(sess_transpose, [a.seed * 1000003 + i for i in range(n)], core=True)
